@@ -125,9 +125,6 @@ class Truth:
         elif k == "open":
             self.handles.append(o[1])
         if "ok" not in out:
-            if k == "set_ticks" and out.get("err") == "IndexError":
-                # `ticks = []` without a ticks dataset: write_data fails after the link (if any) was removed
-                self.dims[self.handles[o[1]]]["link"] = None
             return
         if k == "write_src":
             self.srcs[o[1]] = tuple(o[2])
@@ -524,9 +521,6 @@ def gen_session(rng, length=None):
                         emit(["set_ticks", h, t])
                     else:
                         ops.append(["set_ticks", h, t])       # refused: nothing changes
-                elif not t and d["ticks"] is None:
-                    ops.append(["set_ticks", h, t])           # fails in write_data; an existing link is gone
-                    d["link"] = None
                 else:
                     emit(["set_ticks", h, t])
             elif r < 0.75:
